@@ -127,6 +127,70 @@ func runC03(c *Ctx) {
 			}
 		}
 	}
+	// an id extractor may also decode the first item from data[off:]: off must then be the header width actually
+	// present, for every initial byte (evaluated like the header readers of C07)
+	for fn := range extract {
+		if fn.Parent() != nil {
+			continue
+		}
+		for _, ci := range allCalls(fn) {
+			cn := calleeName(ci.Common())
+			if cn != "cbor.Decode" && cn != "cbor.DecodeGeneric" && cn != "cbor.NewStreamDecoder" || len(ci.Common().Args) == 0 {
+				continue
+			}
+			sl, ok := ci.Common().Args[0].(*ssa.Slice)
+			if !ok || sl.Low == nil {
+				continue
+			}
+			if _, isParam := rootValue(sl.X, 0).(*ssa.Parameter); !isParam {
+				continue
+			}
+			key := ssaFuncKey(fn) + ":first-item-offset"
+			nRaw++
+			if k, isK := sl.Low.(*ssa.Const); isK {
+				if k.Value != nil && k.Int64() == 0 {
+					continue
+				}
+				// a constant offset is right only where the header is that long: same enumeration as a raw read
+				atom := "p0[0]"
+				var badVals []string
+				for v := int64(0); v < 256; v++ {
+					reach := psReachVal(fn, []*ssa.BasicBlock{fn.Blocks[0]}, nil, map[string]int64{atom: v})
+					if reach[ci.Block()] && !(oneByte(v) && k.Int64() == 1) {
+						badVals = append(badVals, fmt.Sprintf("%#x", v))
+					}
+				}
+				if len(badVals) > 8 {
+					badVals = append(badVals[:8], fmt.Sprintf("… %d values", len(badVals)))
+				}
+				c.Check(len(badVals) == 0, "raw-read-header", key, ci.Pos(), "the first item is decoded at byte 1 only for one-byte headers", "the first item is decoded from byte "+k.Value.String()+" on also when the header byte is "+strings.Join(badVals, ","))
+				continue
+			}
+			var h *ssa.Function
+			hidx := 0
+			switch x := sl.Low.(type) {
+			case *ssa.Extract:
+				if cl, isCall := x.Tuple.(*ssa.Call); isCall {
+					h, hidx = cl.Call.StaticCallee(), x.Index
+				}
+			case *ssa.Call:
+				h = x.Call.StaticCallee()
+			}
+			if h == nil || len(h.Blocks) == 0 || len(h.Params) == 0 {
+				c.Undecided("%s: the offset of the first list item (%s) is not a constant or the result of a function over the data", key, shortArg(trace(sl.Low)))
+				continue
+			}
+			wrong, undec := headerWidthVerdict(h, hidx, 4)
+			if undec != "" {
+				c.Undecided("%s: the offset %s returns for initial byte %s is not a constant this checker can evaluate", key, h.Name(), undec)
+				continue
+			}
+			if len(wrong) > 6 {
+				wrong = append(wrong[:6], fmt.Sprintf("… %d initial bytes", len(wrong)))
+			}
+			c.Check(len(wrong) == 0, "raw-read-header", key, ci.Pos(), "the first item is decoded behind the header width actually present (all 256 initial bytes)", "the first item is decoded at the offset "+h.Name()+" returns, which is not the header width for initial byte "+strings.Join(wrong, ", ")+": a byte of the length field is decoded as the tag")
+		}
+	}
 	// vacuity guard: if the id extractors still index their byte parameter beyond [0] but no raw read was recognised, say so
 	nIdx := 0
 	for fn := range extract {
